@@ -687,7 +687,76 @@ def check(run):
             if bd.get('fault'):
                 run.count('fault_' + bd['fault'])
     common.standard_flow(run, spec, cases)
+    check_shutdown_waits(run)
+
+
+def check_shutdown_waits(run, only=None):
+    """'however the simulation ends - shutdown() ...': shutdown() returns only when the simulation task has
+    finished and every block has been stopped - also when the termination had been requested already
+    (a 'shutdown' control event, another shutdown() call) and the clean-up is still going on."""
+    for how in ('ctrl_then_shutdown', 'two_shutdowns', 'abort_then_shutdown'):
+        if only is not None and how != only:
+            continue
+        obs = dict(at_return=None, outcome=None, harness=None)
+
+        async def main(loop, how=how, obs=obs):
+            edzed.reset_circuit()
+            circuit = edzed.get_circuit()
+            stopped = []
+
+            class SlowStop(edzed.AddonAsync, edzed.SBlock):
+                def init_regular(self):
+                    self.set_output(0)
+
+                def stop(self):
+                    stopped.append(self.name)
+
+                async def stop_async(self):
+                    await asyncio.sleep(0.05)
+                    stopped.append(self.name + ':async')
+            SlowStop('slow', stop_timeout=1.0)
+            inp = edzed.Input('inp', initdef=0)
+            ev = edzed.Event.shutdown()
+            task = asyncio.create_task(circuit.run_forever())
+            await circuit.wait_init()
+            other = None
+            if how == 'ctrl_then_shutdown':
+                ev.send(inp)
+            elif how == 'two_shutdowns':
+                other = asyncio.create_task(circuit.shutdown())
+                await asyncio.sleep(0)
+            else:
+                circuit.abort(Boom('abort'))
+            await asyncio.sleep(0.01)            # the clean-up has begun, slow's stop_async is running
+            try:
+                await circuit.shutdown()
+                obs['outcome'] = 'returned'
+            except Exception as err:             # noqa
+                obs['outcome'] = type(err).__name__
+            obs['at_return'] = dict(task_done=task.done(), stopped=sorted(stopped))
+            await asyncio.wait([task] + ([other] if other else []), timeout=2.0)
+        try:
+            vloop.run_virtual(main, wall_limit_s=10.0)
+        except BaseException as err:             # noqa
+            obs['harness'] = repr(err)[:200]
+        finally:
+            edzed.reset_circuit()
+        run.add_case(dict(shutdown_waits=how), True)
+        run.count('shutdown_waits')
+        want = dict(task_done=True, stopped=['slow', 'slow:async'])
+        ok = (obs['harness'] is None and obs['at_return'] == want
+              and obs['outcome'] == ('Boom' if how == 'abort_then_shutdown' else 'returned'))
+        run.add_obligation(ok)
+        if not ok:
+            run.violation('monitor', dict(case=dict(shutdown_waits=how), observed=obs),
+                          f"shutdown() called 10 ms after the termination was requested ({how}) while a block's "
+                          f"stop_async (50 ms) is running: shutdown() -> {obs['outcome']}, at that moment "
+                          f"{obs['at_return']} (expected {want}); harness: {obs['harness']}",
+                          clause='shutdown_returned_early:' + how, concrete=True)
 
 
 def replay(run, path):
+    _, case = common.load_replay_case(path)
+    if isinstance(case, dict) and 'shutdown_waits' in case:
+        return common.directed_replay(run, path, lambda: check_shutdown_waits(run, case['shutdown_waits']))
     return common.std_replay(run, C08(), path)
